@@ -196,6 +196,7 @@ type Exec struct {
 	work     []*State
 
 	curResults []resTerm // handles on the values being returned (set while postconditions are checked)
+	orphanSpecs   []orphanSpec
 	remap         *loopRemap
 	remapDone     bool
 	mentions      map[string]bool
@@ -371,6 +372,32 @@ func (ex *Exec) oblige(kind string, site string, pos token.Pos, text string, con
 		ex.oblList = append(ex.oblList, ob)
 	}
 	if !cond.IsTrue() {
+		if os.Getenv("GOVC_DEBUGSTEP") != "" && strings.Contains(site, "step") {
+			set := map[*Term]bool{}
+			for _, p := range ex.st.pc {
+				set[p] = true
+			}
+			for _, p := range ex.st.pc {
+				if set[ex.ts.Not(p)] {
+					fmt.Fprintf(os.Stderr, "DEBUG contradictory pc at %s: %s\n", site, ex.ts.Show(p)[:200])
+				}
+			}
+			if ex.ts.And(append(append([]*Term(nil), ex.st.pc...), ex.ts.Not(cond))...).IsFalse() {
+				fmt.Fprintf(os.Stderr, "DEBUG pc and not goal folds to false at %s; goal=%s\n", site, ex.ts.Show(cond)[:300])
+				for _, p := range ex.st.pc {
+					if ex.ts.And(p, ex.ts.Not(cond)).IsFalse() {
+						fmt.Fprintf(os.Stderr, "   with pc element %s\n", ex.ts.Show(p)[:400])
+					}
+				}
+			}
+		}
+		if os.Getenv("GOVC_DEBUGSTEP") != "" {
+			for i, p := range ex.st.pc {
+				if p == cond {
+					fmt.Fprintf(os.Stderr, "DEBUG obligation %s %s: goal already in the path condition at %d of %d\n", kind, site, i, len(ex.st.pc))
+				}
+			}
+		}
 		pc := append([]*Term(nil), ex.st.pc...)
 		// universally quantified goals are proved for fresh constants, and the path facts are instantiated at them
 		goal, sks := ex.skolemizeGoal(cond)
@@ -587,6 +614,11 @@ func (ex *Exec) Run() (err error) {
 			return fmt.Errorf("path limit %d exceeded", ex.maxPaths)
 		}
 		ex.runPath()
+	}
+	for _, o := range ex.orphanSpecs {
+		if !o.placed {
+			return fmt.Errorf("loop %d of the contract (head %q when the contracts were locked) can no longer be located in %s or in a helper it calls: its clauses would be lost", o.ordinal, o.header, relName(ex.root))
+		}
 	}
 	ex.ranToEnd = true
 	return nil
@@ -966,6 +998,38 @@ func (ex *Exec) fieldWriteObligations(fr *Frame, ins *ssa.Store, p Val, v Val) {
 	}
 }
 
+// fieldReadObligations: `fieldread f requires e` clauses (see fieldWriteObligations), for loads made by the function under
+// verification itself.
+func (ex *Exec) fieldReadObligations(fr *Frame, ins ssa.Instruction, p Val) {
+	fp, ok := p.(FieldPtr)
+	if !ok || ex.dry != nil || fr.fn != ex.root {
+		return
+	}
+	named, ok := fp.Own.(*types.Named)
+	if !ok || named.Obj().Pkg() == nil {
+		return
+	}
+	c := ex.prog.Types[fkey(named.Obj().Pkg().Path(), "type "+named.Obj().Name())]
+	if c == nil || len(c.FieldRead) == 0 {
+		return
+	}
+	tagged := false
+	for _, pr := range c.Props {
+		if pr == currentProperty {
+			tagged = true
+		}
+	}
+	if !tagged {
+		return
+	}
+	fname := fp.ST.Field(fp.Idx).Name()
+	for i, cl := range c.FieldRead[fname] {
+		env := ex.envFor(fr, nil)
+		env.vars["self"] = fp.Base
+		ex.oblige("fieldread", ex.siteOf(ins, fmt.Sprintf("%s.%s:%03d", named.Obj().Name(), fname, i)), ins.Pos(), "at every load of "+named.Obj().Name()+"."+fname+": "+cl.Text, ex.evalBool(cl.E, env))
+	}
+}
+
 func (ex *Exec) doStore(p Val, v Val) {
 	if ex.dry != nil {
 		l := ex.resolve(p)
@@ -1006,6 +1070,7 @@ func (ex *Exec) unop(fr *Frame, x *ssa.UnOp) Val {
 		if gp, ok := v.(GlobalPtr); ok {
 			return ex.loadGlobal(gp)
 		}
+		ex.fieldReadObligations(fr, x, v)
 		return ex.load(v)
 	case token.NOT:
 		return Scalar{T: ts.Not(ex.scalarTerm(v, x.Type())), Typ: x.Type()}
